@@ -11,7 +11,7 @@ CLAIMED = {
     "C14": ("MIR dominator/path-condition analysis of #[target_feature] call sites with crate-wide who-may-write "
             "inference of feature flags and tier enums (R-TF); who-may-call rule on signed 8-bit lane comparisons in compare "
             "kernels with bias-idiom recognition (R-SIGNED); no implicit-length PCMPISTR* on byte slices and no narrowing of 64-lane "
-            "masks (R-LANES)",
+            "masks (R-LANES); movemask restricted to the filled lanes of a zero-padded scratch array (R-PADMASK)",
             "static rules over all MIR bodies: decide the dispatch-soundness clause (kernels entered only under an "
             "implying runtime feature check; portable fallback exists) for every call site in the crate; it does not "
             "decide that kernels compute the scalar function; plus: no cmp/compare kernel orders bytes with an unbiased "
@@ -24,7 +24,7 @@ CLAIMED["C18"] = (
     "compile-fail witness (E0382) + MIR producer/consumer coverage of task queues (R-QUEUE) + must-move path analysis of "
     "popped Box<dyn Task> values (R-LINEAR.task) + examined-Result rule for refusing task sinks (R-SINK) + who-may-call "
     "rule on completion-ordered combinators in sequence-returning APIs (R-SEQ) + dead-error analysis of Result matches (R-ERRDEAD) + increment/decrement pairing on all paths (R-INFLIGHT) + lock-order graph of "
-    "the stealing queues (R-LOCKORDER) + no lock-guarded accumulator in spawned closures (R-SEQ.shared)",
+    "the stealing queues (R-LOCKORDER) + no lock-guarded accumulator in spawned closures (R-SEQ.shared) + no flatten over task Results (R-FLATTEN)",
     "static rules over MIR and a type-level witness: decide that executing a task consumes it, that every queue the "
     "owner can fill is drained on the owner's own path (single-worker liveness), that a task taken out of a queue is "
     "run/returned/re-queued on every path, that a refused task is noticed, that Vec-returning APIs do not collect in "
@@ -34,7 +34,7 @@ CLAIMED["C18"] = (
     "DESIGN.md section 4 C18")
 CLAIMED["C16"] = (
     "MIR atomic check-then-act detection (R-ATOM), lock-guard liveness coverage of named atomic operations "
-    "(R-LOCKCOV), raw-owner-pointer escape analysis (R-OWN) and compile-fail witnesses",
+    "(R-LOCKCOV), raw-owner-pointer escape analysis (R-OWN), commit-before-check with undo on the refusing path (R-COMMIT, through deciding helpers) and compile-fail witnesses",
     "static rules over MIR plus borrow-checker witnesses: the writer-exclusivity decision is a single RMW; version "
     "assignment, live-count increment and threshold advance happen under token_chain_mutex; tokens are (not) tied to "
     "their manager",
@@ -54,7 +54,7 @@ CLAIMED["C06"] = (
     "MIR must-pass-through-sanitiser analysis for the in-band occupancy marker (R-TAINT-S, sentinels and sanitiser inferred "
     "structurally, incl. enumerators) + probe-past-tombstone path rule (R-PROBE) + sibling agreement of hash-to-slot reduction "
     "(R-SIBLING.index) + parallel-vector reshape agreement incl. whole-element replacement (R-PARALLEL) + clear() completeness over collection fields (R-CLEAR) + "
-    "variant-routing coverage (R-VARIANT)",
+    "variant-routing coverage (R-VARIANT) + movemask restricted to the filled lanes of a zero-padded scratch array (R-PADMASK)",
     "static rules over MIR: a hash from Hasher::finish cannot reach a store into / comparison with HashEntry.hash without "
     "passing a function that tests every sentinel; every map operation x HashMapStorage variant reaches a back end that "
     "reads the key",
@@ -101,11 +101,12 @@ for _pid, _what, _extra_t, _extra_w in (
          "; BitVector's pop/resize/clear clear the storage they vacate (whole-word popcounts rely on it)"),
         ("C09", "indexed accessors of the compressed integer containers refuse reads past the end",
          "; chunks_exact tail-handling rule (R-REMAINDER); no refusing range check on an already narrowed value (R-NARROWCHECK); "
-         "dominating refusing comparison on every value handed to a fixed-width packer of the SortedUintVec builder (R-WIDTHCHECK); neighbour location of the pair accessor (R-PAIRACCESS)",
+         "dominating refusing comparison on every value handed to a fixed-width packer of the SortedUintVec builder (R-WIDTHCHECK); neighbour location of the pair accessor (R-PAIRACCESS); no strided scan in whole-sequence predicates (R-SAMPLE)",
          "; no chunked scan of the values ignores its remainder; block base and delta are refused when wider than their configured width"),
         ("C10", "index parameters are guarded before unchecked access; push/pop examine fullness/emptiness before touching a slot",
          "; wrapped-cursor store rule (R-WRAP), empty-by-construction range rule (R-EMPTYRANGE), sync-before-remap ordering (R-ORDER), "
-         "clear() completeness (R-CLEAR), bulk-vs-single effect agreement (R-SIBLING.batch), end-derived-from-start of bump ranges (R-RANGE.dep)",
+         "clear() completeness (R-CLEAR), bulk-vs-single effect agreement (R-SIBLING.batch), end-derived-from-start of bump ranges (R-RANGE.dep), power-of-two backing of mask wraps (R-WRAP.pow2), full-width comparison before a usize parameter is "
+         "narrowed (R-NARROWIDX), length kept in step with raw writes from a user iterator (R-PANICSAFE.len)",
          "; ring cursors are only stored wrapped; drop loops of shrinking operations are not empty by construction; MmapVec "
          "writes its mapping back before re-reading the file")):
     CLAIMED[_pid] = (
